@@ -107,6 +107,9 @@ class C11(Machine):
             'backend': rng.choice(['tqdm', 'tqdm', 'plain']),
             'bar': rng.random() < 0.3,
             'file_dir': (not layered) and rng.random() < 0.45,
+            # directory names with dots (~/.cache/..., run.v2) are legal
+            'dir_name': rng.choice(['files', 'files', 'fi.les.v2',
+                                    '.cache']),
             'policy': rng.choice(simpool.POLICIES),
             'late_pickle': rng.random() < 0.5,
         }
@@ -193,6 +196,8 @@ class C11(Machine):
             out.append(var(backend='plain'))
         if c['file_dir']:
             out.append(var(file_dir=False))
+        if c.get('dir_name', 'files') != 'files':
+            out.append(var(dir_name='files'))
         if c['gridding'] != 'same':
             out.append(var(gridding='same', grid2=None))
         if c['gridding'] in ('frequency', 'source', 'both'):
@@ -250,7 +255,7 @@ class C11(Machine):
                 'stretching': [1.0, 1.5], 'cell_numbers': [8, 16, 32],
                 'lambda_factor': 0.5}
         if cfg['file_dir'] and not reference:
-            kw['file_dir'] = os.path.join(scratch, 'files')
+            kw['file_dir'] = os.path.join(scratch, cfg.get('dir_name', 'files'))
         with warnings.catch_warnings():
             warnings.simplefilter('ignore')
             sim = emg3d.Simulation(survey, model, **kw)
